@@ -43,6 +43,7 @@ def std_models(include_quantised=True):
                   st.integers(2, 4), st.sampled_from([-5.0, -4.0, -8.0]),
                   st.sampled_from([5.0, 6.0, 8.0])),
         st.just({"name": "gauss_gauss", "dims": 2}),
+        st.just({"name": "gauss_hole", "dims": 2}),
         st.just({"name": "periodic", "dims": 2}),
         st.just({"name": "gw_named"}),
     ]
@@ -253,9 +254,17 @@ def standard_job(draw, nlive=(20, 200), resume_cycles=(0, 0),
     n_cycles = draw(st.integers(*resume_cycles))
     kills = []
     for i in range(n_cycles):
-        # fractions of the number of likelihood calls of the uninterrupted
-        # (probe) run: kills land anywhere in the run
-        kills.append(draw(st.floats(0.02, 0.97 if i == 0 else 0.6)))
+        # fractions of the number of likelihood evaluations of the
+        # uninterrupted (probe) run: kills land anywhere in the run; or a
+        # structural event (k-th pool population / k-th training start),
+        # which reaches the boundaries a random instant rarely hits (first
+        # population after the switch, between training and population)
+        if draw(st.integers(0, 2)) == 0:
+            kills.append({"event": draw(st.sampled_from(
+                ["population", "population", "training"])),
+                "k": draw(st.integers(1, 3))})
+        else:
+            kills.append(draw(st.floats(0.02, 0.97 if i == 0 else 0.6)))
     if kills:
         labels.append(f"kills:{len(kills)}")
     return {"model": model, "ins": False, "kwargs": kw, "kills": kills,
@@ -275,10 +284,14 @@ def history_from(case, monitors, post=(), call_log=False, extra=None):
     if case.get("mid_ckpt_kill"):
         steps.append(dict(base, kill_after_mid_checkpoint=True))
     for k in case.get("kills", []):
-        steps.append(dict(base, kill_frac=k))
+        if isinstance(k, dict):
+            steps.append(dict(base, kill_event=k))
+        else:
+            steps.append(dict(base, kill_frac=k))
     steps.append(dict(base))
     return {"steps": steps, "until_completed": True,
-            "probe": bool(case.get("kills"))}
+            "probe": any(not isinstance(k, dict)
+                         for k in case.get("kills", []))}
 
 
 # ------------------------------------------------------------------ INS
@@ -288,6 +301,8 @@ def ins_models():
                   st.integers(2, 4)),
         st.just({"name": "gauss_gauss", "dims": 2}),
         st.just({"name": "rosenbrock", "dims": 2}),
+        st.just({"name": "gauss_hole", "dims": 2}),
+        st.just({"name": "gauss_hole", "dims": 2, "cut": -1.0}),
     )
 
 
@@ -361,8 +376,12 @@ def ins_job(draw, resume_cycles=(0, 0), nlive=(100, 500),
     kw["checkpoint_on_iteration"] = True
     kw["checkpoint_interval"] = draw(st.integers(1, 3))
     n_cycles = draw(st.integers(*resume_cycles))
-    kills = [draw(st.floats(0.1, 0.97 if i == 0 else 0.6))
-             for i in range(n_cycles)]
+    kills = []
+    for i in range(n_cycles):
+        if draw(st.integers(0, 3)) == 0:
+            kills.append({"event": "level", "k": draw(st.integers(1, 3))})
+        else:
+            kills.append(draw(st.floats(0.1, 0.97 if i == 0 else 0.6)))
     if kills:
         labels.append(f"kills:{len(kills)}")
     return {"model": model, "ins": True, "kwargs": kw, "kills": kills,
